@@ -78,6 +78,11 @@ def obligations(tier):
                     obs.append(step(s, op, f, k1, k2, i1, i2, timeout=600))
         obs.append(step(s, 4, 0, timeout=600)); obs.append(step(s, 4, 1, timeout=600))
         obs.append(step(s, 6, 0, timeout=600)); obs.append(step(s, 6, 8, timeout=600))
+    for L in ((1, 2, 3) if tier == 'quick' else (1, 2, 3, 4)):
+        obs.append(Ob('C13.c/quote_key-len%d' % L, 'C13_quote.c', engine='N', defs={'LEN': L, 'VF_STRCAP': 8}, unwind=12, timeout=900,
+                      functions=['vnaproperty_quote_key', 'scan'], bounds='key of %d arbitrary non-NUL bytes' % L,
+                      stubs=['malloc/calloc at maximum size with the requested size checked', 'strlen(key) = LEN (asserted)', 'ctype (C locale)'],
+                      what='scan(quote_key(key)) reads back exactly key, for every key of %d arbitrary bytes' % L))
     for op in range(5):
         for n in ((0, 1, 2, 3, 8) if op <= 3 else (0, 1, 3, 5)):
             obs.append(ds(n, op, timeout=600))
